@@ -13,7 +13,7 @@
 #   cdb_seek.c     cdb_bread treats EOF as success                                               cdb_bread
 #   cdb_hash.c     sign-extended key byte                                                        cdb_hash_agree
 #   cdbmake_pack.c third shift by 7                                                              cdb_pack_unpack
-from vlib import Obl, Prog
+from vlib import Obl, Prog, borrow
 
 
 def obligations(tier):
@@ -196,4 +196,6 @@ def obligations(tier):
         claim="for the table (a,b,a): the database written by the real writer returns through the real reader the first line's data for the "
               "duplicated key, the right data for the other key and 'not found' for an absent key",
         expect_witnesses=["round_trip"]))
+    # spawn.c (anchor of this property) hands the command's sender and recipient, unchanged and split at the last @, to spawn()
+    obls += borrow("C18", ["spawn_getcmd", "spawn_docmd"], tier)
     return obls
